@@ -148,10 +148,142 @@ let text_spec base tcode (src : z list option) o obits mo =
         | CF32 | CF64 | CF80 -> spec_text_flt s o mo
         | _ -> spec_text base c s mo))
 
+(* second argument "space-patched": mpt_convert_string as patched by docs/C07_convert_string_space.diff
+   (props/c07.py PATCHED_STRING_SPACE) *)
+let patched = Array.length Sys.argv > 2 && Sys.argv.(2) = "space-patched"
+
+let fb = function None -> "fnan" | Some b -> "f" ^ hex_of_z b
+let show_fobs up o = match o with
+  | FRefused e -> "R" ^ string_of_int (err_code e)
+  | FOk (_, b, ret) -> cs up 'K' ^ string_of_z ret ^ ":" ^ fb b
+  | FVec (l, ret) -> cs up 'V' ^ string_of_z ret ^ ":" ^ string_of_z l
+  | FQuery ret -> cs up 'Q' ^ string_of_z ret
+  | FFault -> "F"
+let show_fsobs up m s = match s with
+  | FSRefused -> "R"
+  | FSOk (_, b, size) -> cs up 'K' ^ (if up then string_of_z size else "*") ^ ":" ^ fb b
+  | FSQuery size -> cs up 'Q' ^ (if up then string_of_z size else "*")
+  | FSFree -> m
+let flt_cty = function "f" -> CF32 | "d" -> CF64 | _ -> CF80
+let bits_of_x v = z_of_hex (String.sub v 1 (String.length v - 1))
+(* the harness iterator of the I cases: mode bit 0 = no value, bit 1 = advance fails with BadOperation *)
+let iter_of_mode sk mode =
+  { it_val = (if mode land 1 = 1 then None else Some sk);
+    it_adv = (if mode land 2 = 2 then Some BadOperation else if mode land 1 = 1 then Some MissingData else None) }
+let with_calls tok calls = tok ^ "@" ^ string_of_z calls
+
+(* ---- W cases: sources that are no numbers ---- *)
+type wconv = NoConv | Cv of wsrc | Mt of wsrc
+let wkind = function   (* type code, converter, mpt_data_tostring succeeds *)
+  | "s" | "s0" -> 115, NoConv, true
+  | "C4" -> 67, NoConv, true
+  | "C3" | "C0" -> 67, NoConv, false
+  | "I3" -> 73, NoConv, false
+  | "At" -> 64, NoConv, false
+  | "a" -> 97, NoConv, false | "z" -> 122, NoConv, false | "l" -> 108, NoConv, false | "k" -> 107, NoConv, false
+  | "vf" -> 24, NoConv, false | "tv" -> 25, NoConv, false | "priv" -> 0x12345, NoConv, false | "t20" -> 32, NoConv, false
+  | "it" -> 0x86, NoConv, false | "id" -> 0x800, NoConv, false
+  | "cv" -> 0x80, Cv WObj, false | "cv0" -> 0x80, Cv WNullPtr, false | "cvn" -> 0x80, Cv WNoFrom, false
+  | "mt" -> 0x100, Mt WObj, false | "mt0" -> 0x100, Mt WNullPtr, false | "mtn" -> 0x100, Mt WNoFrom, false
+  | "m7" -> 0x7ff, Mt WObj, false
+  | "rf" -> 0x801, Mt WObj, false | "rf0" -> 0x801, Mt WNullPtr, false
+  | k -> failwith ("source kind " ^ k)
+(* the stub object answers 'i' (with 77) and nothing else *)
+let stub_ans tk = if tk = 105 then None else Some BadType
+
 let () =
   let ic = open_in Sys.argv.(1) in
   List.iter (fun line ->
     match split_ws line with
+    | id :: ("V" | "C" as kind) :: (("f" | "d" | "e") as src) :: dst :: hd :: vals ->
+      (* floating sources through mpt_value_convert / mpt_iterator_consume *)
+      let sc = flt_cty src and tk = z_of_string dst and hd = (hd = "1") in
+      let sk = z_of_small (Char.code src.[0]) in
+      let t = tty_of_code tk in
+      emit id (List.map (fun v ->
+        let bits = bits_of_x v in
+        let f hd =
+          let r = value_convert_flt sc bits tk hd in
+          if kind = "V" then r else
+          (match iterator_consume_c { it_val = Some sk; it_adv = None } tk hd (fobs_err r) with
+           | IOut (Inl e, _, _) -> FRefused e
+           | IOut (Inr ret, _, _) -> (match r with FOk (c, b, _) -> FOk (c, b, ret) | FVec (l, _) -> FVec (l, ret) | FQuery _ -> FQuery ret | r -> r)) in
+        let m = show_fobs false (f hd) in
+        let acc = (match f true with FRefused _ | FFault -> false | _ -> true) in
+        (m, show_fsobs false m (spec_fconv sc bits t hd acc))) vals)
+    | id :: "I" :: src :: dst :: hd :: mode :: vals ->
+      (* mpt_iterator_consume: no value / failing advance / skip *)
+      let tk = z_of_string dst and hd = (hd = "1") and mode = int_of_string mode in
+      let sk = z_of_small (Char.code src.[0]) in
+      let t = tty_of_code tk in
+      let it = iter_of_mode sk mode in
+      let isflt = (src = "f" || src = "d" || src = "e") in
+      emit id (List.map (fun v ->
+        (* (value_convert error, token of a successful conversion with return code ret, spec token) per hd *)
+        let one hd =
+          if isflt then
+            let sc = flt_cty src and bits = bits_of_x v in
+            let r = value_convert_flt sc bits tk hd in
+            (r = FFault, fobs_err r,
+             (fun ret -> show_fobs false (match r with FOk (c, b, _) -> FOk (c, b, ret) | FVec (l, _) -> FVec (l, ret) | FQuery _ -> FQuery ret | r -> r)),
+             (fun m acc -> show_fsobs false m (spec_fconv sc bits t hd acc)))
+          else
+            let v = z_of_string v in
+            let r = value_convert sk v tk hd in
+            (r = CFault, cres_err r,
+             (fun ret -> show_obs false (observe t hd (match r with Done (stv, _) -> Done (stv, ret) | r -> r))),
+             (fun m acc -> show_sobs false m (spec_conv v t hd acc))) in
+        let run hd =
+          let (fault, vc, tok, spec) = one hd in
+          if fault && mode land 1 = 0 && tk <> Z0 && tgt_cty t <> None then ("F", false, spec) else
+          (match iterator_consume_c it tk hd vc with
+           | IOut (Inl e, calls, _) -> (with_calls ("R" ^ string_of_int (err_code e)) calls, false, spec)
+           | IOut (Inr ret, calls, None) -> (with_calls ((if hd then "u" else "q") ^ string_of_z ret) calls, true, spec)
+           | IOut (Inr ret, calls, Some _) -> (with_calls (tok ret) calls, true, spec)) in
+        let (m, _, spec) = run hd in
+        let (_, acc, _) = run true in
+        let s =
+          if tk = Z0 then m                                  (* skipping is no conversion *)
+          else if m.[0] = 'R' || m = "F" then (if acc then m else "R")
+          else (let base = String.sub m 0 (String.index m '@') and calls = String.sub m (String.index m '@') (String.length m - String.index m '@') in
+                let st = spec base acc in if st = "R" then "R" else st ^ calls) in
+        (m, s)) vals)
+    | id :: "W" :: kind :: hd :: dsts ->
+      let hd = (hd = "1") in
+      let (ski, wc, tostr) = wkind kind in
+      let sk = z_of_small ski in
+      emit id (List.map (fun d ->
+        let tk = z_of_string d in
+        let tki = int_of_string d in
+        let table_ok = (match data_converter sk, wc with ConvNone, NoConv -> true | ConvOther, (Cv _ | Mt _) -> true | _ -> false) in
+        let conv_ok = (match wc with
+          | NoConv -> false
+          | Cv w -> convertable_wrap w (stub_ans tki) = None
+          | Mt w -> mw_ok (metatype_wrap w tk hd true hd (stub_ans tki))) in
+        let asked = tki <> 0 && (match wc with Cv WObj -> true | Mt WObj -> tki <> 2049 | _ -> false) in
+        let r = value_convert_c sk tk conv_ok tostr in
+        let m = (match r with
+          | _ when not table_ok -> "?converter-table"
+          | VRefused e -> "R" ^ string_of_int (err_code e)
+          | r when not hd -> "q" ^ string_of_z (vret r)
+          | VConv ret ->
+            (match wc with
+             | Mt w when tki = 2049 -> Printf.sprintf "r%s:a%du1" (string_of_z ret) (if w = WObj then 1 else 0)
+             | _ -> "c" ^ string_of_z ret ^ ":77")
+          | VCopy n -> "m0:" ^ string_of_z n
+          | VCopyVec -> "m1:16"
+          | VMkVec n -> "v2:" ^ string_of_z n
+          | VStr -> "s4") in
+        let m = if asked && m.[0] <> '?' then m ^ "/c1" else m in
+        let delegated = (match wc with NoConv -> false | _ -> true) in
+        let s = (match spec_other_to_number tk delegated with Some false -> "R" | _ -> m) in
+        (m, s)) dsts)
+    | id :: "T" :: codes ->
+      emit id (List.map (fun k ->
+        let m = (match traits (z_of_string k) with
+          | None -> "-"
+          | Some (n, managed) -> (if managed then "m" else "n") ^ string_of_z n) in
+        (m, m)) codes)
     | id :: "D" :: (("f" | "d" | "e") as src) :: dst :: hd :: vals ->
       let sc = (match src with "f" -> CF32 | "d" -> CF64 | _ -> CF80) in
       let t = tty_of_code (z_of_string dst) and hd = (hd = "1") in
@@ -224,28 +356,50 @@ let () =
         let mp = tobserve (Some c) true (get_string_fcn c true src base range) in
         let s = (match src with Some s -> spec_text base c s mp | None -> SRefused) in
         (m, show_tsobs ob m (if hd then s else as_query s))) items)
+    | id :: "ts" :: (("0" | "107" | "67" | "24" | "115") as fmt) :: hd :: items ->
+      (* the branches of mpt_convert_string that are no numbers *)
+      let tk = z_of_string fmt and hd = (hd = "1") in
+      let n2z n = string_of_int (int_of_nat n) in
+      emit id (List.map (fun it ->
+        let (src, o, _) = parse_item it in
+        let m = (match convert_string_full patched src tk hd o with
+          | SFmt -> if hd then "Z0:7300" else "Q115"
+          | SKey None -> if hd then "E" else "Q0"
+          | SKey (Some None) -> "R-2"
+          | SKey (Some (Some (off, n))) -> if hd then "K" ^ n2z n ^ ":@" ^ n2z off else "Q" ^ n2z n
+          | SVec (null, len) -> if hd then "V" ^ n2z len ^ ":" ^ (if null then "0" else string_of_int (int_of_nat len + 1)) else "Q" ^ n2z len
+          | SPtr len -> if hd then "P" ^ n2z len else "Q" ^ n2z len
+          | SValFmt -> if hd then "X" else "X="
+          | SNum _ -> "?numeric") in
+        (m, m)) items)
     | id :: ("tn" | "ts" as kind) :: fmt :: hd :: items ->
       let tk = z_of_string fmt and hd = (hd = "1") in
       let t = tty_of_code tk in
       let fc = flt_of_code (int_of_string fmt) in
       emit id (List.map (fun it ->
         let (src, o, ob) = parse_item_f fc it in
-        let f hd = if kind = "tn" then convert_number src t hd o else convert_string src t hd o in
+        let f hd = if kind = "tn" then convert_number src t hd o else
+          (match convert_string_full patched src tk hd o with SNum r -> r | _ -> TRefused EInval) in
         let mo = tobserve (tgt_cty t) hd (f hd) in
         let m = show_tobs ob mo in
         let mp = tobserve (tgt_cty t) true (f true) in
         let s = text_spec Z0 tk src o ob mp in
         (m, show_tsobs ob m (if hd then s else as_query s))) items)
-    | id :: "tf" :: fmt :: _range :: hd :: items ->
+    | id :: "tf" :: fmt :: range :: hd :: items ->
       let tk = z_of_small (Char.code fmt.[0]) and hd = (hd = "1") in
       let t = tty_of_code tk in
       let fc = flt_of_code (Char.code fmt.[0]) in
+      let c = flt_cty fmt in
+      let range = if range = "-" then None else
+        (match String.split_on_char ':' range with
+         | [a; b] -> Some (fdecode c (bits_of_x a), fdecode c (bits_of_x b)) | _ -> failwith "range") in
       emit id (List.map (fun it ->
         let (src, o, ob) = parse_item_f fc it in
-        let f hd = (match src with None -> TRefused BadArgument | Some s -> convert_float_text hd s o) in
+        let v = if ob = "nan" || ob = "-" then FNaN else fdecode c (z_of_hex ob) in
+        let f hd = (match src with None -> TRefused BadArgument | Some s -> convert_float_text_r hd s o v range) in
         let mo = tobserve (tgt_cty t) hd (f hd) in
         let m = show_tobs ob mo in
         let mp = tobserve (tgt_cty t) true (f true) in
-        let s = (match src with None -> SRefused | Some s -> spec_text_flt s o mp) in
+        let s = (match src with None -> SRefused | Some s -> spec_text_flt_r s o v range mp) in
         (m, show_tsobs ob m (if hd then s else as_query s))) items)
     | _ -> ()) (read_lines ic)
